@@ -70,11 +70,12 @@ func ParseTransfer(fn string, caller, recipient []byte, args [][]byte, senderSid
 		if len(args) < start+3 {
 			return nil, false
 		}
-		cnt := ArgBig(args[start-1])
-		if !cnt.IsUint64() || cnt.Uint64() == 0 || cnt.Uint64() > uint64(len(args)) {
+		// the function reads the low 64 bits of the count (a count of k*2^64 + n names n entries)
+		cntU := ArgUint64(args[start-1])
+		if cntU == 0 || cntU > uint64(len(args)) {
 			return nil, false
 		}
-		k := int(cnt.Uint64())
+		k := int(cntU)
 		if len(args) < start+3*k {
 			return nil, false
 		}
